@@ -422,4 +422,67 @@ theorem accepted_raw_size (cls : ArrCls) (vk : VK) (hF : FloatOK vk) (n : Nat) (
     rw [hrl, hn, hm0]; simp
 
 
+
+
+/-- **frame inside an array**: an accepted assignment leaves every element it does not select untouched -/
+theorem arr_frame (cls : ArrCls) (vk : VK) (hF : FloatOK vk) (n : Nat) (old : Bytes) (key : Key) (v : PyVal)
+    (post : Bytes) (hold : old.length = vk.esize * n) (hw : valWF vk v = true)
+    (h : setField true (.arr cls vk n) old key v = (post, none)) :
+    ∀ idxs, selIndices n key = .ok idxs → ∀ j, j < n → j ∉ idxs →
+      elemBytes post j vk.esize = elemBytes old j vk.esize := by
+  intro idxs hsel j hj hnot
+  cases key with
+  | bad => cases hsel
+  | whole =>
+    simp only [selIndices, Except.ok.injEq] at hsel; subst hsel
+    exact absurd (List.mem_range.mpr hj) hnot
+  | idx i =>
+    have h' : setItem true vk n old (.idx i) v = (post, none) := by
+      unfold setField at h; simpa using h
+    unfold setItem at h'
+    simp only [if_true, Bool.true_and] at h'
+    cases hchk : itemCheck vk (.idx i) v with
+    | error e => simp [hchk] at h'
+    | ok u =>
+      simp only [hchk] at h'
+      obtain ⟨s', b, hv', hj0, hjn, hst, hpost⟩ := storeIdx_ok _ _ _ _ _ _ (lift_ok _ _ _ h')
+      simp only [selIndices] at hsel
+      generalize (if i < 0 then i + (n : Int) else i) = j0 at hj0 hjn hpost hsel
+      have : ¬ (j0 < 0 ∨ j0 ≥ n) := by omega
+      simp only [this, if_false, Except.ok.injEq] at hsel
+      subst hsel
+      have hws : scalarWF vk s' = true := by
+        by_cases hby : vk = .byte ∧ ∃ bs, v = .sc (.bytes bs)
+        · obtain ⟨rfl, bs, rfl⟩ := hby
+          simp only [beq_self_eq_true, if_true] at hv'
+          match bs, hv' with
+          | [], hv' => simp [byteConv] at hv'
+          | [b0], hv' => simp only [byteConv, PyVal.sc.injEq] at hv'; subst hv'; rfl
+          | _ :: _ :: _, hv' => simp [byteConv] at hv'
+        · have hvv : (if (vk == VK.byte) = true then byteConv v else v) = v := by
+            by_cases hvk : vk = .byte
+            · subst hvk
+              simp only [beq_self_eq_true, if_true]
+              exact byteConv_id v (fun hbs => hby ⟨rfl, hbs⟩)
+            · have : (vk == VK.byte) = false := by simpa using hvk
+              simp [this]
+          rw [hvv] at hv'; subst hv'
+          simpa [valWF] using hw
+      have hbl := elemStore_length vk s' b hws hst
+      have hin : j0.toNat * vk.esize + vk.esize ≤ old.length := by
+        rw [hold]; exact idx_in_range (by omega)
+      rw [hpost, elemBytes_writeAt_other _ _ _ _ _ hbl hin (by simpa using (fun e => hnot (by simp [e])))]
+  | slice a b c =>
+    have h' : setItem true vk n old (.slice a b c) v = (post, none) := by
+      unfold setField at h; simpa using h
+    obtain ⟨idxs', xs, hsel', hseq, hlen, hel, hsm⟩ :=
+      setItem_seq_core vk hF n old _ v post (Or.inr ⟨a, b, c, rfl⟩) hw h'
+    rw [hsel] at hsel'
+    simp only [Except.ok.injEq] at hsel'; subst hsel'
+    have hsp := sliceIndices_spec n a b c idxs hsel
+    obtain ⟨_, _, h3⟩ := storeMany_spec vk n idxs xs old post hold hsp.1 hsp.2 hlen
+      (fun x hx b hb => elemStore_length vk x b (hel x hx).1 hb) hsm
+    exact h3 j hnot
+
+
 end Pyrtma.Validators
